@@ -16,6 +16,24 @@ CLAIMED = {
          "generated lists with extreme Byzantine values in several orders",
          "15 theorems, no axioms; the link block.Timestamp = median(famous witnesses' timestamps) is covered by the consensus correspondence (C01 histories)",
          "Coq theorems (sorted-permutation + counting) + model/implementation correspondence"),
+ "C07": ("Invariant proved in Coq for every reachable state of every sequence of insertion attempts (valid or tampered, any genesis): stored events are signed, "
+         "of known participants, parent-complete, extend their creator's chain by exactly one (index = self-parent index + 1), no fork, gap-free listings; "
+         "a rejected attempt leaves the whole state unchanged; the consensus passes never touch the admitted DAG. Tied to the code by a tamper-grammar "
+         "harness (direct and wire paths) whose result class and observables are compared with the model after every attempt",
+         "theorems are about the HgImpl model of Hashgraph.InsertEvent after fix 26c0384; premise: event ids (hash ordinals) determine the event; "
+         "e_sigok is the observed Event.Verify() result",
+         "Coq invariant proof (induction over attempt lists, frame lemmas for every consensus pass) + tamper-grammar correspondence"),
+ "C02": ("Proved in Coq for all operation sequences of a node (insertions in any order incl. late witnesses, ProcessSigPool, commits): commit callbacks carry "
+         "consecutive indexes from 0; a delivered block is reported by the store with the delivered body for ever, signatures only grow; every recorded "
+         "signature is over the node's own body. Round-received monotonicity is stated and checked by the oracle on every history, not yet proved. "
+         "Tied to the code by per-action comparison of all observables of real cores in random gossip histories (static and dynamic membership)",
+         "HgImpl model with in-memory store semantics; Badger DB copy covered by C16; fast-sync reset not in these theorems (C13)",
+         "Coq invariant proof over operation lists + gossip-history correspondence + implementation oracle"),
+ "C16": ("Store model (LRU, RollingIndex with roll, InmemStore, BadgerStore as cache+DB) proved to refine a plain map for all operation sequences and all cache "
+         "sizes under the admission discipline, also across reopen; cache coherence unconditionally; listings exact; the deviations of the real store from a "
+         "plain map are proved as refutation witnesses (W1-W5). Tied to the code by replaying every operation of generated sequences on the real BadgerStore",
+         "13 theorems, no axioms; Badger atomicity/durability and codecs assumed (C15); Reset/Bootstrap out of this model (C11/C13)",
+         "Coq refinement proof (simulation relation) + operation-level correspondence with the real BadgerStore"),
 }
 NOT_YET = "check not built yet in this commit (work in progress; to be claimed)"
 NA = {}
